@@ -82,6 +82,7 @@ func runC03(c *hc.Ctx) error {
 		return fmt.Errorf("no built-in tile matrix set passes IsQuadTree")
 	}
 	_ = grids
+	maxDocGap := 0.0
 	n := c.N(400, 30000)
 	if c.Search {
 		n *= 10
@@ -162,8 +163,20 @@ func runC03(c *hc.Ctx) error {
 		for _, id := range sortedIDs(r.ByID) {
 			level := g.Level(id)
 			S := g.Span(level)
-			cell := ratOfFloat(si.t.TileMatrices[id].CellSize)
+			tm := si.t.TileMatrices[id]
+			cell := ratOfFloat(tm.CellSize)
 			px := new(big.Rat).Quo(cell, big.NewRat(16, 1)) // ideal pixel size in units
+			// the documents give cell sizes as rounded decimals: cellSize(z) * tileWidth * matrixWidth(z) differs from the
+			// extent of tile matrix 0 by up to a few 1e-9 relative (e.g. 0.11 units for UPSAntarcticWGS84Quad id 20).  That
+			// inconsistency of the DOCUMENT is allowed on top of the reported deviation (the theorem C03_centre_deviation_bound
+			// is about the ideal centre derived from the extent, min + (k+1/2) * XSpan / 2^l).
+			docSpan := new(big.Rat).Mul(cell, new(big.Rat).SetInt64(int64(tm.TileWidth)*int64(tm.MatrixWidth)))
+			docGap := new(big.Rat).Sub(docSpan, big.NewRat(g.Ext[2]-g.Ext[0], 10000000000))
+			docGap.Abs(docGap)
+			bound := new(big.Rat).Add(bound, docGap)
+			if f, _ := docGap.Float64(); f > maxDocGap {
+				maxDocGap = f
+			}
 			for _, pl := range r.ByID[id] {
 				for _, ring := range pl {
 					for _, v := range ring {
@@ -192,6 +205,7 @@ func runC03(c *hc.Ctx) error {
 			c.Sample(caseJSON(g, poly, ids, cfg, r))
 		}
 	}
+	c.Sum.Assumptions = append(c.Sum.Assumptions, fmt.Sprintf("largest inconsistency between a document's cellSize(z)*tileWidth*matrixWidth(z) and the extent of tile matrix 0 seen in this run: %.6f units (allowed on top of the reported deviation)", maxDocGap))
 	// synthetic grids as well (exact)
 	sg := syntheticGrids()
 	for i := 0; i < c.N(300, 5000); i++ {
